@@ -707,9 +707,18 @@ def show_job(job):
 def gen_scales(rng, multi=None):
     multi = rng.random() < 0.4 if multi is None else multi
     if multi:
-        k = rng.choice([2, 3])
-        lo = sorted(rng.sample([1.0, 2.5, 10.0, 50.0, 100.0, 128.0, 0.5], k))
-        return [float(x) for x in lo], [float(x) * rng.choice([2.0, 4.0, 10.0]) for x in lo]
+        k = rng.choice([2, 3, 4])
+        lo = rng.sample([1.0, 2.5, 10.0, 50.0, 100.0, 128.0, 0.5], k)
+        order = rng.choice(["ascending", "ascending", "descending", "any", "repeated"])      # a scale LIST: any order, repeats allowed
+        if order == "ascending":
+            lo = sorted(lo)
+        elif order == "descending":
+            lo = sorted(lo, reverse=True)
+        hi = [float(x) * rng.choice([2.0, 4.0, 10.0]) for x in lo]
+        if order == "repeated":
+            j = rng.randrange(k)
+            lo, hi = lo + [lo[j]], hi + [hi[j]]                  # the same range listed twice
+        return [float(x) for x in lo], hi
     a = rng.choice([0.5, 1.0, 2.5, 10.0, 100.0, 100, 128.0])
     b = a * rng.choice([2, 4.0, 10.0])
     if rng.random() < 0.3:
